@@ -11,11 +11,18 @@ import (
 // leg-A runs) scaled to milliseconds, run over real XOR chunk iterators; plus seeded random
 // scrape-like layouts of 1..4 replicas (both iterator kinds). Recorded per case: the stream read
 // with Next from the start and, per seek target, the stream of a fresh reader that seeks first.
+// hintFuncs: select-hint functions that are NOT the counter functions of C02's statement (rate,
+// irate, increase, resets): the empty hint, gauge functions, *_over_time, and the Thanos engine's
+// extended x-functions (pkg/dedup.isCounter does not treat those as counters either). For every one
+// of them the C01 clauses must hold exactly as for "": no value may be adjusted.
+var hintFuncs = []string{"", "delta", "xdelta", "deriv", "avg_over_time", "xrate", "sum_over_time", "idelta",
+	"xincrease", "max_over_time", "changes", "predict_linear", "count_over_time", "last_over_time", "x", "Rate", "rates", "absent_over_time"}
+
 func TestC01(t *testing.T) {
 	rnd := vt.Rand()
 	gen := func(yield func(vt.Case)) {
 		for i, c := range allTLCCases(t) {
-			cc := vt.Normalize(fromTLC(c, "", "xor"))
+			cc := vt.Normalize(fromTLC(c, hintFuncs[i%len(hintFuncs)], "xor"))
 			if hasKinds(cc) {
 				cc["src"] = "list" // mixed sample kinds: one XOR chunk cannot hold them
 			}
@@ -89,7 +96,7 @@ func TestC01(t *testing.T) {
 			if kinds && !nonEmpty(reps) {
 				continue // the list iterator cannot represent an empty replica
 			}
-			f := []string{"", "sum_over_time", "max_over_time"}[rnd.Intn(3)]
+			f := hintFuncs[rnd.Intn(len(hintFuncs))]
 			yield(vt.Case{"reps": repsJSON(reps), "ctr": false, "f": f, "src": src, "algo": algo,
 				"targets": randomTargets(rnd, reps, 4), "scripts": scripts(rnd, reps, 3),
 				"drift": totalSamples(reps) <= 60 && (!vt.Thorough() || i%4 == 0), "gen": "rand"})
